@@ -54,6 +54,22 @@ func callSSA(i *interpreter, caller *frame, callpos token.Pos, fn *ssa.Function,
 	if fn.TypeParams().Len() > 0 && len(fn.TypeArgs()) == 0 {
 		panic("interp requires ssa.BuilderMode to include InstantiateGenerics to execute generics")
 	}
+	if i.path.local == nil && i.world.isPure(fn) && anySymbolic(args) {
+		i.path.FuncsSeen[fn.String()] = true
+		if r, ok := i.summarize(caller, fn, args, env); ok {
+			return r
+		}
+	}
+	return callSSABody(i, caller, fn, args, env)
+}
+
+// callSSABody runs the body of an interpreted function.
+func callSSABody(i *interpreter, caller *frame, fn *ssa.Function, args []value, env []value) value {
+	fr := &frame{
+		i:      i,
+		caller: caller,
+		fn:     fn,
+	}
 	if i.world.trackFuncs {
 		if p := fn.Package(); p != nil && strings.HasPrefix(p.Pkg.Path(), znPrefix) {
 			i.path.FuncsSeen[fn.String()] = true
